@@ -205,6 +205,40 @@ def op_case(rnd, cid, profile="mixed", ops=None, kinds=None, p=BN128):
     return Case(cid, cfg, b.ins, {"shape": "op", "op": op, "kinds": ka + kb, "malformed": malformed})
 
 
+def edge_values(rnd, bl, p):
+    """the boundary grid of the bitlength range (every threshold the code tests), plus the field boundary"""
+    half = 1 << max(bl - 1, 0); full = 1 << bl
+    vs = [0, 1, -1, 2, half - 1, half, half + 1, -half, -half + 1, -half - 1, full - 1, full, full + 1, -full, -full - 1,
+          2 * full, rnd.randrange(full, 16 * full + 2), -rnd.randrange(full, 16 * full + 2), rnd.randrange(0, max(half, 1))]
+    if rnd.random() < 0.1:
+        vs += [p, -p, 2 * p, p - 1, p + 1]
+    return vs
+
+
+def edge_case(rnd, cid, p=BN128):
+    """one operator on operands taken from the boundary grid: every (threshold, threshold) pairing is reachable,
+    shift counts / exponents / widths sit on both sides of the bitlength"""
+    cfg = cfg_for(rnd, p=p)
+    bl = cfg["bl"]
+    b = Builder(rnd, cfg)
+    op = rnd.choice(BINOPS + ["rshift", "lshift", "pow", "floordiv", "mod"])
+    ka, kb = rnd.choice([("L", "L"), ("L", "I"), ("L", "I"), ("I", "L"), ("B", "I"), ("B", "L"), ("L", "B")])
+    va = rnd.choice(edge_values(rnd, bl, p))
+    if op in ("lshift", "rshift", "pow"):
+        vb = rnd.choice([0, 1, 2, bl - 1, bl, bl + 1, 2 * bl, -1, 40])
+    else:
+        vb = rnd.choice(edge_values(rnd, bl, p))
+    if ka == "B":
+        va = rnd.choice([0, 1, 1, 2, -1])
+    if kb == "B":
+        vb = rnd.choice([0, 1, 1, 2, -1])
+    ra = b.operand(ka, value=va); rb = b.operand(kb, value=vb)
+    rr = b.emit(f"bin {op} r{ra} r{rb}", result_kind(op, ka, kb))
+    follow_ups(rnd, b, rr)
+    return Case(cid, cfg, b.ins, {"shape": "op", "op": op, "kinds": ka + kb, "malformed": True, "edge": True})
+
+
+
 def follow_ups(rnd, b, rr):
     """uses of a result that make an incoherent value or an unsatisfied constraint visible later"""
     k = b.kinds[rr]
@@ -514,7 +548,7 @@ def cancel_case(rnd, cid, p=BN128):
 
 def generate(rnd, n, prefix, mix=None, p=BN128):
     """mix: list of (weight, generator function)"""
-    mix = mix or [(5, op_case), (1, unop_case), (2, method_case), (1, ite_case), (2, chain_case), (1, guarded_case),
+    mix = mix or [(5, op_case), (2, edge_case), (1, unop_case), (2, method_case), (1, ite_case), (2, chain_case), (1, guarded_case),
                   (1, array_case)]
     mix = list(mix) + [(max(1, sum(w for w, _ in mix) // 15), cancel_case)]
     tot = sum(w for w, _ in mix)
